@@ -78,7 +78,7 @@ def refEnc (S : Schema) : Ty → Val → Bytes
   | .base _, .str s => encStr s
   | .base _, .bin _ s => encStr s
   | .ptr e, .ptr v => refEnc S e v
-  | .ptr _, .nilp => [0]
+  | .ptr (.strct _), .nilp => [0]     -- a nil struct pointer is written as an empty struct
   | .list _ e, .lst _ xs => u8 e.wire :: be32 xs.length ++ refEncList S e xs
   | .map k v, .mp _ es => u8 k.wire :: u8 v.wire :: be32 es.length ++ refEncEntries S k v es
   | .strct sid, .st fs h => refEncFields S (S.get sid) (S.get sid).fields fs ++ h ++ [0]
@@ -118,7 +118,7 @@ def toWire (S : Schema) : Ty → Val → TVal
   | .base _, .str s => .str s
   | .base _, .bin _ s => .str s
   | .ptr e, .ptr v => toWire S e v
-  | .ptr _, .nilp => .strct []
+  | .ptr (.strct _), .nilp => .strct []
   | .list isSet e, .lst _ xs =>
       if isSet then .set e.wire (toWireList S e xs) else .list e.wire (toWireList S e xs)
   | .map k v, .mp _ es => .map k.wire v.wire (toWireEntries S k v es)
